@@ -19,170 +19,7 @@ QUICK_UNIVERSES = ["Roots", "Refs", "TypeName", "ImplObject6", "ImplInterface3",
 THOROUGH_UNIVERSES = ["Roots", "RefsBig", "TypeName", "ImplObject6", "ImplInterface6", "Args", "Chain", "Cycle", "CycleBig"]
 
 
-def norm_ts(ts):
-    """TLC's ToJson prints an empty function as []: turn the maps of appendix A back into objects."""
-    def m(x):
-        return {} if isinstance(x, list) else x
-    ts["types"] = m(ts["types"])
-    for t in ts["types"].values():
-        t["fields"] = m(t["fields"])
-        t["inputFields"] = m(t["inputFields"])
-        for f in t["fields"].values():
-            f["args"] = m(f["args"])
-        t["implements"] = sorted(t["implements"])
-        t["members"] = sorted(t["members"])
-    return ts
-
-
-def all_names(ts):
-    for n, t in ts["types"].items():
-        yield n
-        for f, fd in t["fields"].items():
-            yield f
-            yield from fd["args"]
-        yield from t["inputFields"]
-
-
-# ---- seeded random type systems (thorough) -------------------------------------------------------------
-def named(n): return {"k": "named", "n": n}
-def nn(t): return t if t["k"] == "nn" else {"k": "nn", "of": t}
-def lst(t): return {"k": "list", "of": t}
-NONE = {"k": "none"}
-
-
-def wrap(rng, t):
-    r = rng.random()
-    if r < 0.35: return t
-    if r < 0.6: return nn(t)
-    if r < 0.75: return lst(t)
-    if r < 0.85: return lst(nn(t))
-    if r < 0.93: return nn(lst(t))
-    return nn(lst(nn(t)))
-
-
-def new_type(kind):
-    return {"kind": kind, "fields": {}, "implements": [], "members": [], "values": ["V"] if kind == "ENUM" else [],
-            "inputFields": {}, "oneOf": False}
-
-
-def random_ts(rng):
-    """A mostly valid type system with <= 12 user types, then 0-2 random edits.  Validity is decided by TLC."""
-    types = {}
-    objs = ["O%d" % i for i in range(1, rng.randint(1, 4) + 1)]
-    itfs = ["I%d" % i for i in range(1, rng.randint(0, 3) + 1)]
-    unis = ["U%d" % i for i in range(1, rng.randint(0, 2) + 1)]
-    enums = ["E%d" % i for i in range(1, rng.randint(0, 1) + 1)]
-    inputs = ["X%d" % i for i in range(1, rng.randint(0, 3) + 1)]
-    scalars = ["S1"] if rng.random() < 0.3 else []
-    out_names = ["Int", "String"] + objs + itfs + unis + enums + scalars
-    in_names = ["Int", "Boolean"] + enums + inputs + scalars
-
-    def args(rng):
-        a = {}
-        for an in rng.sample(["a", "b"], rng.randint(0, 2)) if rng.random() < 0.5 else []:
-            ty = wrap(rng, named(rng.choice(in_names)))
-            a[an] = {"ty": ty, "default": {"k": "int", "v": "1"} if ty in (named("Int"), nn(named("Int"))) and rng.random() < 0.3 else NONE}
-        return a
-
-    for e in enums: types[e] = new_type("ENUM")
-    for s in scalars: types[s] = new_type("SCALAR")
-    for k, x in enumerate(inputs):
-        t = new_type("INPUT_OBJECT")
-        for xn in rng.sample(["x", "y"], rng.randint(1, 2)):
-            base = rng.choice(in_names)
-            ty = wrap(rng, named(base))
-            if base in inputs and inputs.index(base) >= k and ty == nn(named(base)):
-                ty = named(base)      # required references only point downwards: no required cycle
-            t["inputFields"][xn] = {"ty": ty, "default": NONE}
-        types[x] = t
-    for k, i in enumerate(itfs):
-        t = new_type("INTERFACE")
-        for j in itfs[:k]:
-            if rng.random() < 0.4:
-                for jj in [j] + types[j]["implements"]:
-                    if jj not in t["implements"]:
-                        t["implements"].append(jj)
-                        for fn, fd in types[jj]["fields"].items():
-                            t["fields"].setdefault(fn, json.loads(json.dumps(fd)))
-        for fn in rng.sample(["f", "g", "h"], rng.randint(1, 2)):
-            if fn not in t["fields"]:
-                t["fields"][fn] = {"ty": wrap(rng, named(rng.choice(out_names))), "args": args(rng)}
-        types[i] = t
-    for o in objs:
-        t = new_type("OBJECT")
-        for i in itfs:
-            if rng.random() < 0.5:
-                for ii in [i] + types[i]["implements"]:
-                    if ii not in t["implements"]:
-                        t["implements"].append(ii)
-                        for fn, fd in types[ii]["fields"].items():
-                            t["fields"].setdefault(fn, json.loads(json.dumps(fd)))
-        for fn in rng.sample(["f", "g", "h", "k"], rng.randint(1, 2)):
-            if fn not in t["fields"]:
-                t["fields"][fn] = {"ty": wrap(rng, named(rng.choice(out_names))), "args": args(rng)}
-        types[o] = t
-    for u in unis:
-        t = new_type("UNION")
-        t["members"] = rng.sample(objs, rng.randint(1, len(objs)))
-        types[u] = t
-    # covariant variations of implemented fields (valid by construction)
-    for n in objs + itfs:
-        t = types[n]
-        for i in t["implements"]:
-            for fn, ifd in types[i]["fields"].items():
-                fd = t["fields"][fn]
-                r = rng.random()
-                if r < 0.2:
-                    fd["ty"] = nn(fd["ty"])
-                elif r < 0.4:
-                    base = ifd["ty"]
-                    while base["k"] != "named": base = base["of"]
-                    subs = [o for o in objs + itfs if base["n"] in types[o]["implements"]] + \
-                           (types[base["n"]]["members"] if base["n"] in unis else [])
-                    if subs and n in objs:
-                        def rebase(ty, b): return named(b) if ty["k"] == "named" else {"k": ty["k"], "of": rebase(ty["of"], b)}
-                        fd["ty"] = rebase(ifd["ty"], rng.choice(subs))
-                elif r < 0.5 and "c" not in fd["args"]:
-                    fd["args"]["c"] = {"ty": named("Int"), "default": NONE}
-    ts = {"types": types, "query": objs[0], "mutation": objs[1] if len(objs) > 1 and rng.random() < 0.4 else "", "subscription": ""}
-    if rng.random() < 0.25:
-        sub = new_type("OBJECT")
-        sub["fields"]["s"] = {"ty": named("Int"), "args": {}}
-        types["Sub"] = sub
-        ts["subscription"] = "Sub"
-    # random edits
-    composite = objs + itfs
-    for _ in range(rng.choice([0, 1, 1, 1, 2])):
-        n = rng.choice(composite)
-        t = types[n]
-        fn = rng.choice(sorted(t["fields"])) if t["fields"] else None
-        e = rng.randint(0, 17)
-        if e == 0 and fn: del t["fields"][fn]
-        elif e == 1 and fn: t["fields"][fn]["ty"] = nn(t["fields"][fn]["ty"])
-        elif e == 2 and fn and t["fields"][fn]["ty"]["k"] == "nn": t["fields"][fn]["ty"] = t["fields"][fn]["ty"]["of"]
-        elif e == 3 and fn: t["fields"][fn]["ty"] = named("Zz")
-        elif e == 4 and fn and inputs: t["fields"][fn]["ty"] = named(rng.choice(inputs))
-        elif e == 5 and fn: t["fields"][fn]["args"]["a"] = {"ty": named(rng.choice(objs)), "default": NONE}
-        elif e == 6 and fn: t["fields"][fn]["args"]["d"] = {"ty": nn(named("Int")), "default": rng.choice([NONE, {"k": "int", "v": "1"}])}
-        elif e == 7 and fn and t["fields"][fn]["args"]: del t["fields"][fn]["args"][rng.choice(sorted(t["fields"][fn]["args"]))]
-        elif e == 8 and fn and t["fields"][fn]["args"]:
-            a = t["fields"][fn]["args"][rng.choice(sorted(t["fields"][fn]["args"]))]
-            a["ty"] = a["ty"]["of"] if a["ty"]["k"] == "nn" else nn(a["ty"])
-        elif e == 9 and unis: types[rng.choice(unis)]["members"].append(rng.choice(itfs + enums + inputs + ["Int", "Zz"]))
-        elif e == 10: t["fields"] = {}
-        elif e == 11: t["fields"]["__f"] = {"ty": named("Int"), "args": {}}
-        elif e == 12 and inputs:
-            x = rng.choice(inputs)
-            types[x]["inputFields"]["y"] = {"ty": nn(named(rng.choice(inputs))), "default": NONE}
-        elif e == 13 and t["implements"]: t["implements"].remove(rng.choice(t["implements"]))
-        elif e == 14: ts[rng.choice(["query", "mutation"])] = rng.choice(itfs + unis + enums + inputs + ["Zz"])
-        elif e == 15 and inputs: types[rng.choice(inputs)]["inputFields"] = {}
-        elif e == 16 and itfs: t["implements"].append(rng.choice([i for i in itfs + ["Zz"] + objs if i not in t["implements"]] or ["Zz"]))
-        elif e == 17 and fn: t["fields"][fn]["ty"] = lst(t["fields"][fn]["ty"])
-    for t in types.values():
-        t["implements"] = sorted(set(t["implements"]))
-        t["members"] = sorted(set(t["members"]))
-    return ts
+from tsgen import norm_ts, all_names, random_ts
 
 
 def body(c):
@@ -194,18 +31,34 @@ def body(c):
         nonlocal t0
         stages[name] = round(time.time() - t0, 1)
         t0 = time.time()
-    m = vlib.run_tlc("gql/Gen_SchemaCheck.tla", "gql/MC_SchemaCheck.cfg", workers=4, timeout=900)
-    if m.invariant_violated:
-        raise vlib.ToolError("design-level failure in SchemaCheck.tla: " + str(m.invariant_violated))
-    c.add_tlc("M builder machine, universe MC: reference operators checked against each other", m)
-    stage("M")
+    # mode M runs beside mode G (own metadir); its result is examined before anything is judged
+    import threading
+    mres = {}
+
+    def run_m():
+        try:
+            mres["r"] = vlib.run_tlc("gql/Gen_SchemaCheck.tla", "gql/MC_SchemaCheck.cfg", workers=4, timeout=900, coverage=True,
+                                     metadir=c.path("tlc-M"))
+        except vlib.ToolError as e:
+            mres["e"] = e
+    mt = threading.Thread(target=run_m)
+    mt.start()
     universes = QUICK_UNIVERSES if c.quick else THOROUGH_UNIVERSES
     cfg = c.path("Gen.cfg")
     with open(cfg, "w") as f:
         f.write("CONSTANT Universes = {%s}\nINIT Init\nNEXT Next\nINVARIANT Emit\n" % ", ".join('"%s"' % u for u in universes))
     g = vlib.run_tlc("gql/Gen_SchemaCheck.tla", cfg, workers=8, timeout=1800, keep_lines=50, xmx="8g")
     c.add_tlc("G builder machine, universes " + ",".join(universes), g)
-    stage("G")
+    mt.join()
+    if "e" in mres:
+        raise mres["e"]
+    m = mres["r"]
+    if m.invariant_violated:
+        raise vlib.ToolError("design-level failure in SchemaCheck.tla: " + str(m.invariant_violated))
+    if m.coverage.get("Gen_SchemaCheck!Next", (0, 0))[0] < 1000:
+        raise vlib.ToolError("vacuity: mode M explored %s states" % (m.coverage.get("Gen_SchemaCheck!Next"),))
+    c.add_tlc("M builder machine, universe MC: reference operators checked against each other", m)
+    stage("M+G")
     rows = sorted(set((t[1], vlib.canon(norm_ts(json.loads(t[2])))) for t in g.tagged("REPLAY")))
     if len(rows) < 1000:
         raise vlib.ToolError("generator produced only %d type systems" % len(rows))
@@ -237,7 +90,8 @@ def body(c):
     obs = vlib.read_ndjson(c.path("trace.ndjson"))
     if len(obs) != len(cases):
         raise vlib.ToolError("harness wrote %d observations for %d cases" % (len(obs), len(cases)))
-    v = vlib.run_tlc("gql/SchemaCheckTrace.tla", "gql/SchemaCheckTrace.cfg", env={"TRACE": c.path("trace.ndjson")},
+    vlib.write_ndjson(c.path("trace_v.ndjson"), [{"id": o["id"], "ts": o["ts"], "ok": o["ok"], "panic": o["panic"]} for o in obs])
+    v = vlib.run_tlc("gql/SchemaCheckTrace.tla", "gql/SchemaCheckTrace.cfg", env={"TRACE": c.path("trace_v.ndjson")},
                      workers=8, timeout=3000, keep_lines=50, xmx="8g")
     stage("V")
     c.notes.append({"stage_wall_s": stages})
